@@ -124,6 +124,9 @@ func init() {
 
 	add("b20", cid.NewCidV1(cid.DagProtobuf, d1), x1, "x1") // CIDv1 dag-pb on b3's multihash: same codec and hash as the CIDv0, other CID
 
+	x8 := detBytes("x8", 70000)
+	add("b21", cid.NewCidV1(cid.Raw, mustSum(x8, mh.SHA2_256, -1)), x8, "x8") // a section larger than 64 KiB
+
 	// digest identities
 	type dk struct{ s string }
 	seen := map[string]string{}
